@@ -68,7 +68,7 @@ func (in *Interp) ghostLen(s *Str) *Term {
 		return t
 	}
 	t := in.newSym(64, "glen")
-	in.assert(ULt(t, BVu(64, 1<<40)))
+	in.assert(ULt(t, BVu(64, 1500)))
 	in.assert(ULt(BVu(64, 1), t))
 	in.glen[key] = t
 	return t
